@@ -555,13 +555,51 @@ def _tok_ok(t):
     return spec.read_number(t) is not None or spec._SC.match(t) is not None
 
 
+def original_spelling(text, U, W):
+    """'Inputs that were not edited are written with their original spelling (compared case-insensitively), in
+    their original order': the unedited write against the FILE THAT WAS READ, token by token.  The data block is
+    compared as a multiset of cards (its order is C01's finding F-C01-data-card-order).  -> None | failure dict"""
+    si = spec.split_file(text, W)
+    su = spec.split_file(U, W)
+    bi_ = si["blocks"] + [[]] * (3 - len(si["blocks"]))
+    bu = su["blocks"] + [[]] * (3 - len(su["blocks"]))
+    for b in range(3):
+        ti = [spec.tokens(c.text, cell_geometry=(b == 0)) for c in bi_[b]]
+        tu = [spec.tokens(c.text, cell_geometry=(b == 0)) for c in bu[b]]
+        if b == 0:
+            # cell parameters may be regrouped (the IMP entries of a cell are written together): the part before
+            # the parameters in order, the parameters as a set of (key, values)
+            ti = [(t[:_param_start(t)], sorted(_params(t[_param_start(t):]).items())) for t in ti]
+            tu = [(t[:_param_start(t)], sorted(_params(t[_param_start(t):]).items())) for t in tu]
+        if b == 2:
+            ki, ku = sorted(map(repr, ti)), sorted(map(repr, tu))
+            if ki != ku:
+                miss = [x for x in ti if repr(x) not in ku]
+                extra = [x for x in tu if repr(x) not in ki]
+                return {"kind": "untouched-token-respelled", "where": "unedited write vs the file read, data block",
+                        "before": " ".join(miss[0]) if miss else "", "after": " ".join(extra[0]) if extra else "",
+                        "diffs": [["block 2", "spelling"]]}
+            continue
+        if len(ti) != len(tu):
+            return None       # card count: C01's business
+        for x, y in zip(ti, tu):
+            if x != y:
+                return {"kind": "untouched-token-respelled", "where": "unedited write vs the file read",
+                        "before": str(x)[:300], "after": str(y)[:300], "diffs": [["block %d" % b, "spelling"]]}
+    return None
+
+
 def c07_check(case, prog):
-    """edited write vs unedited write, card by card, as TEXT.  -> None | failure dict"""
+    """edited write vs unedited write, card by card, as TEXT, and the unedited write vs the file that was read,
+    token by token.  -> None | failure dict"""
     W = case["width"]
     r = _prepare(case, prog)
     if r is None or isinstance(r, dict):
         return None       # rejected edits / failing writes are C03's business
     U, E, applied, exps = r
+    r0 = original_spelling(case["text"], U, W)
+    if r0:
+        return r0
     su = spec.split_file(U, W)
     se = spec.split_file(E, W)
     if not any(ex[0] == "title" for ex in exps) and su["title"] != se["title"]:
